@@ -92,7 +92,7 @@ RPrelude == << SVar("v1", Num(5)), SVar("v2", Str("t")), SVar("v3", Lit(VNil)), 
 RandCases == [k \in 1..NRandom |-> [t |-> RPrelude \o RStmts(SeedProp * 65536 + k, 1, RandStmts, 2) \o <<SPrint(Str("end"))>>, c |-> "random", key |-> "random:" \o IntStr(SeedProp) \o "." \o IntStr(k)]]
 
 Cases == FormCases \o DeepCases \o RandCases
-Programs == [i \in 1..Len(Cases) |-> LayoutProg(Cases[i].t, 1)]
+Programs == TLCEval([i \in 1..Len(Cases) |-> LayoutProg(Cases[i].t, 1)])
 FamProgOf(i) == Programs[i]
 Init == \E i \in 1..Len(Programs) : InitSem(i, <<StrCps("line one"), StrCps("line two")>>, FALSE)
 Next == SemNext
